@@ -22,3 +22,16 @@ func init() {
 func init() {
 	extraExplain["C36"] = append(extraExplain["C36"], "(Q2) 'every chain valid now' is the answer of the trust database's Chains query: its validity bounds are bound in UTC, like the stored values they are compared with as text (shared with C24).")
 }
+
+func init() {
+	for k, v := range map[string][]string{
+		"C07": {"(D2) the one-hop path object is recycled from packet to packet: onehop.Path.DecodeFromBytes reaches a successful return only after decoding Info, FirstHop and SecondHop, so nothing of the previous packet is serialized into this one."},
+		"C12": {"(D2) onehop.Path.DecodeFromBytes overwrites all three members on every successful return (shared with C07)."},
+		"C19": {"(D2) Decoded.DecodeFromBytes leaves InfoFields / HopFields with exactly NumINF / NumHops elements on every successful return (a fresh make or an exact re-slice): what SerializeTo iterates is what the meta header describes, also when the object is reused for a shorter path."},
+		"C27": {"(E1) every statement of the path database that writes the MaxExpiry column - first insert and update of an existing row - binds the segment's MaxExpiry() in seconds, and the clean-up compares the column with a time in seconds: the same abstract state leaves the same row whichever history produced it."},
+		"C38": {"(A1, engine E9) the wire and the Go enumeration of signature algorithms are translated by exact inverse tables on the three supported algorithms, and every other value - the unset wire value 0 included - maps to unknown / unspecified: the parameter is only compared with constants, and the function is folded at each of them, at 0 and at one value outside."},
+		"C48": {"(W1) the gateway's consumer keeps up to 32 entries that have left the ring in a batch buffer; only pktRing.Read writes that buffer (stores, clear, copy), it hands out entries[0] and keeps entries[1:], and Close only closes the ring: entries written before closure are still returned before closure is reported."},
+	} {
+		extraExplain[k] = append(extraExplain[k], v...)
+	}
+}
